@@ -314,7 +314,7 @@ func (r *Run) Finish(w *os.File) int {
 		"wall_s":     float64(int(time.Since(r.start).Seconds()*100)) / 100,
 		"violations": fresh,
 	}
-	if ev["assumptions"] == nil {
+	if r.Assumptions == nil {
 		ev["assumptions"] = []string{}
 	}
 	b, _ := json.MarshalIndent(ev, "", " ")
